@@ -1,4 +1,5 @@
 import Engeom.Driver.C18
+import Engeom.Driver.C02
 import Engeom.Driver.C03
 import Engeom.Driver.C06
 import Engeom.Driver.C08
@@ -19,6 +20,7 @@ def dispatch (op : String) (args : List String) : Option String :=
   | "param" | "jac" => DrvC08.handle op args
   | "fit" => DrvC09.handle op args
   | "ray" => DrvC06.handle op args
+  | "closest" => DrvC02.handle op args
   | "xform" => DrvC03.handle op args
   | "curve" => DrvCurve.handle op args
   | "select" => DrvC14.handle op args
